@@ -461,6 +461,10 @@ func (c *Conn) Write(b []byte) (int, error) {
 		case *payloads.ActivateRequestPayload:
 			rec.ID = p.UniqueIdentifier
 			item.ResponsePayload = &payloads.ActivateResponsePayload{UniqueIdentifier: p.UniqueIdentifier}
+		case *payloads.EncryptRequestPayload:
+			// the identifier travels as a BYTE string (what the caller gets back is a []byte field)
+			rec.ID = string(p.Data)
+			item.ResponsePayload = &payloads.EncryptResponsePayload{UniqueIdentifier: "k", Data: append([]byte{}, p.Data...)}
 		default:
 			item.ResultStatus = kmip.ResultStatusOperationFailed
 			item.ResultReason = kmip.ResultReasonOperationNotSupported
